@@ -588,6 +588,9 @@ func (c *pkGen) next(s *pkSnap) string {
 	if c.focus == "C04" {
 		w["fin"], w["finkey"], w["recv"], w["ack"], w["timeout"] = 16, 8, 26, 8, 6
 	}
+	if c.focus == "C03" {
+		w["fork"], w["ack"], w["timeout"], w["fulfill"], w["state"], w["send"] = 9, 9, 7, 12, 8, 10
+	}
 	if c.focus == "C05" {
 		w["fulfill"], w["fauth"], w["ondemand"], w["updfee"], w["lpcreate"], w["grant"] = 12, 10, 9, 6, 6, 4
 	}
@@ -668,6 +671,11 @@ func (c *pkGen) next(s *pkSnap) string {
 			fin = uint64(s.FinH[ri])
 		}
 		hs := []uint64{fin, fin + 1, fin + 2, c.h.lastH[ri], 0}
+		if c.h.lastH[ri] > fin+1 {
+			for k := 0; k < 4; k++ { // valid fork heights: finalized <= h < latest
+				hs = append(hs, fin+uint64(c.g.Intn(int(c.h.lastH[ri]-fin))))
+			}
+		}
 		if c.h.lastH[ri] > 0 {
 			hs = append(hs, c.h.lastH[ri]-1)
 		}
